@@ -374,3 +374,29 @@ Section Keeper.
 
   Definition run (ops : list op) : state := fold_left (fun s o => fst (step s o)) ops init.
 End Keeper.
+
+(** * Derived notions used by the widened property statements (no new behaviour) *)
+
+(** The direct parent of a name: everything after the first dot ([None] for a root).  The
+    property's "bound under a restricted parent only by that parent's owner" is judged on the
+    direct parent of the RESULTING full name, however a message split it into record and parent. *)
+Definition parent_of (name : string) : option string :=
+  match split_dots name with
+  | _ :: ((_ :: _) as t) => Some (join_dots t)
+  | _ => None
+  end.
+
+(** The documented rule for "valid name in storage format", by cases (types/name.go doc comments
+    + Keeper.Normalize): at most [max_levels] segments; every segment has at least [min] bytes and is
+    - UUID-shaped (one of the four spellings uuid.Parse accepts), in normal form (lower case, no
+      surrounding white space) — of ANY length above the minimum, or
+    - made of lower-case letters, digits and at most one dash, and at most [max] bytes long. *)
+Definition plain_char (c : ascii) : bool := is_dash c || is_lower c || is_digit c.
+Definition is_normal (seg : string) : bool := String.eqb (to_lower (trim seg)) seg.
+Definition doc_segment (p : params) (seg : string) : bool :=
+  (p_min_seg p <=? slen seg)%N &&
+  ((is_uuid seg && is_normal seg)
+   || (forallb plain_char (chars seg) && (count_by is_dash seg <=? 1)%N && (slen seg <=? p_max_seg p)%N)).
+Definition doc_valid (p : params) (name : string) : bool :=
+  (N.of_nat (List.length (split_dots name)) <=? p_max_levels p)%N &&
+  forallb (doc_segment p) (split_dots name).
